@@ -108,6 +108,14 @@ def h_drawParse : Handler := fun j => do
     ("ground_label", jsonExcept Json.str (groundLabel ord syms)),
     ("circuit", jsonExcept jsonCircuit (circuitTranslator π ord syms))])
 
+/-- op `draw_get_element`: `parser.get_element(name)` for a list of names -/
+def h_drawGetElement : Handler := fun j => do
+  let syms ← getSyms j
+  let names ← (← getArr j "names").toList.mapM fun n => n.getStr?
+  pure (Json.arr (names.map fun n =>
+    jsonExcept (fun (s : Sym) => Json.mkObj [("cls", s.cls), ("name", s.name), ("start", jsonPt s.start), ("end", jsonPt s.stop)])
+      (getElement syms n)).toArray)
+
 /-- op `draw_round`: `round(x, 2)` on a list of numbers, with the distance to the nearest tie -/
 def h_drawRound : Handler := fun j => do
   let xs ← (← getArr j "xs").toList.mapM getRat
@@ -172,7 +180,7 @@ def h_drawDeclarative : Handler := fun j => do
     (declarative π unit elems))
 
 def handlers : List (String × Handler) :=
-  [("draw_parse", h_drawParse), ("draw_round", h_drawRound), ("draw_construct", h_drawConstruct),
+  [("draw_parse", h_drawParse), ("draw_get_element", h_drawGetElement), ("draw_round", h_drawRound), ("draw_construct", h_drawConstruct),
    ("draw_load", h_drawLoad), ("draw_cycles", h_drawCycles), ("draw_declarative", h_drawDeclarative)]
 
 end CC.DrawDriver
